@@ -442,18 +442,12 @@ oscore_increment_sender_seq(oscore_ctx_t *ctx) {
 /*
  * oscore_roll_back_seq
  *
- * Restore the sequence number and replay-window to the previous state. This
- * is to be used when decryption fail.
+ * Restore the sequence number and replay-window to the state they had before
+ * the preceding successful oscore_validate_sender_seq(). This is to be used
+ * when decryption of the message that was validated fails.
  */
 void
 oscore_roll_back_seq(oscore_recipient_ctx_t *ctx) {
-
-  if (ctx->rollback_sliding_window != 0) {
-    ctx->sliding_window = ctx->rollback_sliding_window;
-    ctx->rollback_sliding_window = 0;
-  }
-  if (ctx->rollback_last_seq != 0) {
-    ctx->last_seq = ctx->rollback_last_seq;
-    ctx->rollback_last_seq = 0;
-  }
+  ctx->sliding_window = ctx->rollback_sliding_window;
+  ctx->last_seq = ctx->rollback_last_seq;
 }
